@@ -13,6 +13,7 @@
 # limitations under the License.
 """Symbolic dict."""
 
+import copy
 import typing
 from typing import Any, Callable, Iterable, Iterator, List, Optional, Sequence, Set, Tuple, Union
 
@@ -607,6 +608,9 @@ class Dict(dict, base.Symbolic, pg_typing.CustomTyping):
         # The default object belongs to the schema: the tree gets a copy, or
         # mutating it later would change the default of the field for good.
         value = value.clone(deep=True)
+      elif isinstance(value, (list, dict, tuple)):
+        # So do the members of a plain container default.
+        value = copy.deepcopy(value)
     else:
       value = base.from_json(
           value,
